@@ -10,12 +10,15 @@ package conf
 import (
 	"encoding/json"
 	"fmt"
+	"net/http"
 	"os"
 	"reflect"
 	"runtime/debug"
 	"strings"
 	"testing"
 
+	"github.com/gotid/god/api/httpx"
+	"github.com/gotid/god/lib/mapping"
 	g "github.com/gotid/god/lib/mapping/c05gen"
 	"verif.local/vk"
 )
@@ -838,4 +841,137 @@ func TestVerifC05ConfLoad(t *testing.T) {
 		}
 	}
 	m.Sample(map[string]any{"random_files": n, "deterministic_probes": idx - base, "json_template": jsonT})
+}
+
+// ---------------------------------------------------------------------------
+// one process, many entry points: no call may change what a later call does
+
+// TestVerifC05Interleaved: config loads (which pass the key-canonicalising option), plain
+// mapping.Unmarshal* calls, calls with explicit options (WithStringValues, a custom
+// WithCanonicalKeyFunc), UnmarshalKey and httpx.Parse / ParseJsonBody are executed in seeded random
+// orders inside this one process; every call must give exactly what the generator's model says for
+// that call alone, whatever ran before it.
+func TestVerifC05Interleaved(t *testing.T) {
+	m := vk.New(t, "C05", "per scenario three generated shapes (plain json-tagged with keys containing '_', '-', digits and upper-case initials; config shape; all-strings shape) and their valid documents; 14 kinds of calls - conf.LoadFromJsonBytes/LoadFromYamlBytes/Load(file) incl. key variants, mapping.UnmarshalJsonBytes/YamlBytes/JsonMap/JsonReader/YamlReader without options, the same with WithStringValues and with a custom WithCanonicalKeyFunc (upper-casing; document keys upper-cased), UnmarshalKey, httpx.ParseJsonBody, httpx.Parse - run twice in two seeded orders; each result must equal the generator's struct (options of one call must not leak into another)")
+	defer m.Done()
+	dir := os.Getenv("VK_SCRATCH")
+	if dir == "" {
+		dir = t.TempDir()
+	}
+	n := vk.N(300, 10000)
+	for idx := 1; idx <= n; idx++ {
+		if !m.Only(idx) {
+			continue
+		}
+		r := m.Rand("interleaved", idx)
+		plain := g.RandShape(r, g.Cfg{TagKey: "json", MaxDepth: 2, NoEnv: true, NoDep: true, NoUntagged: true})
+		keyed := g.RandShape(r, g.Cfg{TagKey: "key", MaxDepth: 2, NoEnv: true})
+		cshape := g.RandShape(r, g.Cfg{TagKey: "json", MaxDepth: 2, Conf: true, NoEnv: true})
+		sshape := g.RandShape(r, g.Cfg{TagKey: "json", MaxDepth: 1, NoEnv: true, NoDep: true, AllStrings: true})
+		pc := g.ValidCase(r, plain, false, false)
+		kc := g.ValidCase(r, keyed, false, false)
+		cc := g.ValidCase(r, cshape, true, false)
+		sc := g.ValidCase(r, sshape, false, true)
+		upperDoc := g.KeyVariant(r, plain.Root, pc.Doc, "upper")
+		confVariant := g.KeyVariant(r, cshape.Root, cc.Doc, "mix")
+		file := fmt.Sprintf("%s/c05-il-%d.yaml", dir, idx)
+		os.WriteFile(file, g.YAML(cc.Doc), 0o644)
+		decode := func(doc map[string]any) map[string]any {
+			var mm map[string]any
+			dec := json.NewDecoder(strings.NewReader(string(g.JSON(doc))))
+			dec.UseNumber()
+			dec.Decode(&mm)
+			return mm
+		}
+		req := func(doc map[string]any) *http.Request {
+			rq, _ := http.NewRequest(http.MethodPost, "http://c05.local/x", strings.NewReader(string(g.JSON(doc))))
+			rq.Header.Set("Content-Type", "application/json")
+			return rq
+		}
+		yamlOK := !g.HasNull(pc.Doc)
+		type op struct {
+			name string
+			c    *g.Case
+			run  func(v any) error
+		}
+		ops := []op{
+			{"conf.LoadFromJsonBytes", cc, func(v any) error { return LoadFromJsonBytes(g.JSON(cc.Doc), v) }},
+			{"conf.LoadFromJsonBytes(key variants)", cc, func(v any) error { return LoadFromJsonBytes(g.JSON(confVariant), v) }},
+			{"conf.LoadFromYamlBytes", cc, func(v any) error {
+				if g.HasNull(cc.Doc) {
+					return LoadFromJsonBytes(g.JSON(cc.Doc), v)
+				}
+				return LoadFromYamlBytes(g.YAML(cc.Doc), v)
+			}},
+			{"conf.Load(file)", cc, func(v any) error {
+				if g.HasNull(cc.Doc) {
+					return LoadFromJsonBytes(g.JSON(cc.Doc), v)
+				}
+				return Load(file, v)
+			}},
+			{"mapping.UnmarshalJsonBytes", pc, func(v any) error { return mapping.UnmarshalJsonBytes(g.JSON(pc.Doc), v) }},
+			{"mapping.UnmarshalYamlBytes", pc, func(v any) error {
+				if !yamlOK {
+					return mapping.UnmarshalJsonBytes(g.JSON(pc.Doc), v)
+				}
+				return mapping.UnmarshalYamlBytes(g.YAML(pc.Doc), v)
+			}},
+			{"mapping.UnmarshalJsonMap", pc, func(v any) error { return mapping.UnmarshalJsonMap(decode(pc.Doc), v) }},
+			{"mapping.UnmarshalJsonReader", pc, func(v any) error { return mapping.UnmarshalJsonReader(strings.NewReader(string(g.JSON(pc.Doc))), v) }},
+			{"mapping.UnmarshalYamlReader", pc, func(v any) error {
+				if !yamlOK {
+					return mapping.UnmarshalJsonBytes(g.JSON(pc.Doc), v)
+				}
+				return mapping.UnmarshalYamlReader(strings.NewReader(string(g.YAML(pc.Doc))), v)
+			}},
+			{"mapping.UnmarshalJsonBytes(WithCanonicalKeyFunc(upper)), upper-cased keys", pc, func(v any) error {
+				return mapping.UnmarshalJsonBytes(g.JSON(upperDoc), v, mapping.WithCanonicalKeyFunc(strings.ToUpper))
+			}},
+			{"mapping.UnmarshalJsonMap(WithStringValues)", sc, func(v any) error { return mapping.UnmarshalJsonMap(decode(sc.Doc), v, mapping.WithStringValues()) }},
+			{"mapping.UnmarshalKey", kc, func(v any) error { return mapping.UnmarshalKey(decode(kc.Doc), v) }},
+			{"httpx.ParseJsonBody", pc, func(v any) error { return httpx.ParseJsonBody(req(pc.Doc), v) }},
+			{"httpx.Parse", pc, func(v any) error { return httpx.Parse(req(pc.Doc), v) }},
+		}
+		var history []string
+		bad := false
+		for round := 0; round < 2 && !bad; round++ {
+			order := r.Perm(len(ops))
+			for _, oi := range order {
+				o := ops[oi]
+				res := o.c.Shape.New()
+				d := fmt.Sprintf("case=%d;call=%s;after=%s;shape=%s;doc=%s", idx, o.name, strings.Join(history, " > "), o.c.Shape.String(), c05cTrim(string(g.JSON(o.c.Doc)), 2000))
+				c05cCurrent(m, idx, d)
+				var err error
+				var pv any
+				func() {
+					defer func() { pv = recover() }()
+					err = o.run(res.Interface())
+				}()
+				m.Count("interleaved.calls."+strings.SplitN(o.name, "(", 2)[0], 1)
+				switch {
+				case pv != nil:
+					m.Violate("C05:panic:interleaved", d, "panic: %v", pv)
+					bad = true
+				case err != nil:
+					m.Violate("C05:cross-call-state:valid-rejected", d, "%s rejects a document that is valid for it; calls before it in this process: %s\nerror: %v", o.name, strings.Join(history, " > "), err)
+					bad = true
+				case !g.Equal(res.Elem(), o.c.Expect.Elem()):
+					m.Violate("C05:cross-call-state:value", d, "%s, calls before it in this process: %s\n got: %s\nwant: %s", o.name, strings.Join(history, " > "), g.Show(res), g.Show(o.c.Expect))
+					bad = true
+				}
+				if bad {
+					break
+				}
+				history = append(history, o.name)
+				if len(history) > 6 {
+					history = history[len(history)-6:]
+				}
+			}
+		}
+		os.Remove(file)
+		m.Case(plain.String()+cshape.String(), !bad)
+		if m.WantSample() && idx%61 == 1 {
+			m.Sample(map[string]any{"plain_shape": plain.String(), "config_shape": cshape.String(), "last_calls": history})
+		}
+	}
 }
